@@ -428,6 +428,8 @@ def _integrate_uses_resize(m):
 
 
 def run(ctx):
+    from .common import rule_abs_tolerance
+    rule_abs_tolerance(ctx, "C03.g", [f for k in ctx.model.mod(MOD).classes.values() for f in k.methods.values()], "normalised integrals must be equal at every scale of the data")
     if _integrate_uses_resize(ctx.model):
         from . import c11
         from .common import shared
